@@ -21,12 +21,15 @@ CLAIMED = {
                      'every other length is a ValueError). That the replacement leaves come back from a re-flatten: implementation oracle only.' + PARTIAL,
                 technique='Lean 4 proof (mutual structural induction) + correspondence', ref='6 C01'),
     'C02': dict(text='Proved: C02_leaf_order (flatten leaves = documented order leavesOf, all trees/configs), C02_none_filter, C02_pred_refines, '
-                     'C02_sort_perm / C02_sort_fallback, classification lemmas C02_kind_*, C02_pred_first. Dict-insertion-order irrelevance '
-                     '(sort canonicity) is covered by oracle + correspondence only.' + PARTIAL,
+                     'C02_sort_perm / C02_sort_fallback, classification lemmas C02_kind_*, C02_pred_first, C02_sort_canonical (keys on which < is a '
+                     'strict total order sort to the same list from every insertion order) with C02_int_keys_canonical; for key sets outside '
+                     'that hypothesis (stage-2 / fallback orders) insertion-order irrelevance is covered by oracle + correspondence only.' + PARTIAL,
                 technique='Lean 4 proof (refinement to a reference leaf order) + correspondence', ref='6 C02'),
     'C03': dict(text='Proved: C03_flatten_with_path_agrees (leaves, node array, namespace and error of flatten vs flatten_with_path for well-behaved '
-                     'flatten functions), C03_counts, C03_is_leaf_flatten / C03_flatten_is_leaf, C03_error_parity_partial; the full error-parity '
-                     'statement is refuted by C03_error_parity_full_false (known finding). tree_iter and the reductions: correspondence + oracle.' + PARTIAL,
+                     'flatten functions), C03_iter_leaves (whenever flatten succeeds the lazy iterator yields exactly its leaves in order; agenda '
+                     'machine vs recursion), C03_counts, C03_is_leaf_flatten / C03_flatten_is_leaf, C03_error_parity_partial; the full '
+                     'error-parity statement is refuted by C03_error_parity_full_false (known finding). Error parity of tree_iter and the '
+                     'reductions: correspondence + oracle.' + PARTIAL,
                 technique='Lean 4 proof (simulation between two traversals) + correspondence', ref='6 C03'),
     'C04': dict(text='Proved: C04_path_of_accessor (accessor walk and path walk run in lock step: .path of the i-th accessor is the i-th path, any node '
                      'array), C04_path_of_accessor_leaf, C04_resolveEntryKind_not_auto. Accessor application to trees and codify/eval: oracle only.' + PARTIAL,
